@@ -6,7 +6,8 @@
 (* rows included), SetObjective (sense, coefficients, offset), Finish.      *)
 (* Terminal states are printed as cases; all numbers are integers over the  *)
 (* denominator Den.  Kinds selects the family:                              *)
-(*   "cont"  continuous kinds only      "mixed"  also Boolean and integer   *)
+(*   "cont" continuous kinds, "mixed" also Boolean and integer; "cont2" and   *)
+(*   "mixed2" are reduced kind sets for the two-variable families           *)
 EXTENDS Integers, Sequences, FiniteSets, TLC, Json, SequencesExt
 CONSTANTS NV, NR, CMag, Kinds, Den, Named
 
@@ -14,10 +15,18 @@ Fin(n) == [inf |-> 0, n |-> n, d |-> Den]
 PInf == [inf |-> 1, n |-> 0, d |-> 1]
 MInf == [inf |-> -1, n |-> 0, d |-> 1]
 K(k, lo, hi) == [kind |-> k, lo |-> lo, hi |-> hi]
+\* bounds exactly at zero matter: a Real(0, u) variable is still a *free* variable of the
+\* standard form (split into two parts) and needs its x >= 0 row
+ZeroKinds == {K("real", Fin(0), Fin(2 * Den)), K("real", Fin(0), PInf), K("nnreal", Fin(0), Fin(2 * Den)),
+              K("real", Fin(-2 * Den), Fin(0))}
 ContKinds == {K("real", MInf, PInf), K("nnreal", Fin(0), PInf), K("real", Fin(-1 * Den), Fin(2 * Den)),
               K("nnreal", Fin(1 * Den), Fin(3 * Den)), K("real", MInf, Fin(2 * Den)), K("real", Fin(-1 * Den), PInf)}
 IntKinds == {K("bool", Fin(0), Fin(Den)), K("int", Fin(-1 * Den), Fin(2 * Den))}
-KindSet == IF Kinds = "cont" THEN ContKinds ELSE ContKinds \cup IntKinds
+KindSet == CASE Kinds = "cont" -> ContKinds \cup ZeroKinds
+             [] Kinds = "cont2" -> (ContKinds \ {K("real", Fin(-1 * Den), Fin(2 * Den))}) \cup {K("real", Fin(0), Fin(2 * Den)), K("real", Fin(-2 * Den), Fin(0))}
+             [] Kinds = "mixed2" -> {K("real", MInf, PInf), K("nnreal", Fin(0), PInf), K("real", Fin(0), Fin(2 * Den)),
+                                     K("nnreal", Fin(1 * Den), Fin(3 * Den)), K("real", MInf, Fin(2 * Den))} \cup IntKinds
+             [] OTHER -> ContKinds \cup ZeroKinds \cup IntKinds
 RhsSet == {-2 * Den, 0, 1, 3 * Den}
 Coefs == (-CMag)..CMag
 Names == <<"v0", "v1", "v2", "v3">>
